@@ -21,9 +21,10 @@ static struct model {
 } M;
 
 enum { E_OBSNEW, E_DUP_OLD, E_DUP_NEW, E_REOBS_LAST, E_OTHER, E_OTHER2, E_QUERY, E_QUERY_BR, E_QUERY_HI, E_RESET0, E_RESET1, E_DISC, E_QLT_ICON, E_QLT_NAME,
-       E_QLT_HWID, E_EMIT, E_NEV };
+       E_QLT_HWID, E_EMIT, E_BG1, E_BG2, E_NEV };     /* E_BG1/2 (only with --b 1): a neighbour's Hello heard on the responder's second / third interface */
 static const char *ENAME[] = {"ObsNew", "ProbeDup(oldest)", "ProbeDup(newest)", "Probe again from the most recently recorded station", "ProbeForPEER", "TrainForPEER(eth dst OWN)", "Query(M1,seq=1)", "Query(M2 via BR,seq=0xFFFE)",
-                              "Query(M1,seq=0x0203)", "Reset(tos0)", "Reset(tos1)", "Discover(M1)", "QueryLargeTlv(icon)", "QueryLargeTlv(name)", "QueryLargeTlv(hwid)", "Emit(1)"};
+                              "Query(M1,seq=0x0203)", "Reset(tos0)", "Reset(tos1)", "Discover(M1)", "QueryLargeTlv(icon)", "QueryLargeTlv(name)", "QueryLargeTlv(hwid)", "Emit(1)",
+                              "on interface 1: a neighbour's Hello", "on interface 2: a neighbour's Hello"};
 
 static int has(int k) { return (M.out[k >> 3] >> (k & 7)) & 1; }
 static void setb(int k, int v) { if (v) M.out[k >> 3] |= (uint8_t)(1u << (k & 7)); else M.out[k >> 3] &= (uint8_t)~(1u << (k & 7)); }
@@ -134,6 +135,7 @@ static void apply(int ev) {
         case E_QLT_NAME: { pev e = ev_qlt(0, ST_M1, ST_M1, 5, 0x11, 0); drv_linux(&e, 0); break; }
         case E_QLT_HWID: { pev e = ev_qlt(0, ST_M1, ST_M1, 5, 0x13, 0); drv_linux(&e, 0); break; }
         case E_EMIT: { pev e = ev_emit1(0, ST_M1, ST_M1, 7, 1, 0, ST_S0, ST_PEER); drv_linux(&e, 0); break; }
+        case E_BG1: case E_BG2: { pev e = ev_hello(0, ST_PEER, 0x3412); drv_linux(&e, ev - E_BG1 + 1); break; }
     }
     int had_last = is_query && M.last_rec && has(M.last_rec - 1);
     if (is_query) { M.reobs = 0; drv_linux(&q, 0); if (mode == 7 || mode == 2) { int sup = vf_suppress; if (mode == 2) vf_suppress = 1; oracle_query(&q); vf_suppress = sup; } }
@@ -164,6 +166,7 @@ static void apply(int ev) {
 }
 
 static int enabled(int ev) {
+    if (ev == E_BG1 || ev == E_BG2) return A.b == 1 && mode == 7;
     if (mode == 19) return !(ev == E_QUERY_HI || ev == E_OTHER2 || ev == E_RESET1 || ev == E_REOBS_LAST);   /* retention does not depend on sequence numbers */
     if (ev == E_OBSNEW) return M.nout < klimit && !M.reobs;
     if (ev == E_DUP_OLD || ev == E_DUP_NEW) return M.nout > 0;
@@ -174,6 +177,43 @@ static void ev_name(int ev, char *buf, size_t cap) { snprintf(buf, cap, "%s", EN
 static void root_setup(void) { memset(&M, 0, sizeof M); }
 static uint64_t dbg_hist[4][8];
 static void dbg_state(int depth) { (void)depth; int b = M.nout == 0 ? 0 : M.nout < 30 ? 1 : M.nout < 100 ? 2 : 3; int c = (M.last_rec ? 1 : 0) + (M.reobs ? 2 : 0) + ((M.last_rec && !has(M.last_rec - 1)) ? 4 : 0); dbg_hist[b][c]++; }
+
+/* ------------------------------------------------------------------ C07 value sweep
+ * Every non-zero 16-bit sequence number of a Query, direct and bridged, with 0 / 1 / 3 / capacity / capacity+2
+ * observations outstanding: the closure uses three sequence numbers.  pseudo path: [variant (outstanding index * 2 + bridged), seq] */
+static int vq_stage[2], vq_n; static uint64_t vq_cases;
+static void vq_prepare(int variant) {
+    int cap = (int)capacity(); int counts[5] = {0, 1, 3, cap, cap + 2};
+    vf_world_reset(); root_setup(); vf_trace_clear();
+    apply(E_DISC);
+    for (int i = 0; i < counts[variant / 2]; i++) { vf_trace_clear(); apply(E_OBSNEW); }
+    vf_trace_clear();
+}
+static void vq_query(int variant, int seq) {
+    pev q = (variant & 1) ? ev_query(0, ST_M2, ST_BR, (uint16_t)seq) : ev_query(0, ST_M1, ST_M1, (uint16_t)seq);
+    vf_trace_clear(); drv_linux(&q, 0); oracle_query(&q); vq_cases++;
+    if (A.verbose) { char nm[160]; pev_name(&q, nm, sizeof nm); printf("    %s answered with %d frame(s)\n", nm, tr_sends()); }
+}
+static void vq_name(int ev, char *b, size_t cap) { snprintf(b, cap, "arg(%d)", ev); }
+static void vq_apply(int ev) { vq_stage[vq_n++] = ev; if (vq_n == 2) { vq_n = 0; vq_prepare(vq_stage[0]); vq_query(vq_stage[0], vq_stage[1]); } }
+static void vq_root(void) { vq_n = 0; }
+static e1_cfg vqcfg = { .nev = 1 << 16, .ev_name = vq_name, .apply = vq_apply, .root_setup = vq_root };
+static void run_vq(void) {
+    static int p[2];
+    for (int variant = 0; variant < 10; variant++) {
+        vq_prepare(variant);
+        vf_snap *s = vf_snapshot(&M, sizeof M);
+        for (int seq = 1; seq < 65536; seq++) {
+            vf_restore(s, &M, sizeof M);
+            p[0] = variant; p[1] = seq; e1_manual_path(&vqcfg, p, 2);
+            vq_query(variant, seq);
+            if ((seq & 0x3FF) == 0) vf_outcome(vf_trace_hash());
+        }
+        free(s);
+    }
+    R.evaluations = vq_cases; R.transitions = vq_cases; R.states = 10; R.exhaustive = 1;
+    vf_sample("Query value sweep: {0,1,3,capacity,capacity+2} outstanding observations x {direct, bridged} x sequence number 1..65535");
+}
 
 /* ------------------------------------------------------------------ C19 pump
  * Directed long histories: every word of length <= L over a macro alphabet (Flood(n) = n fresh observations,
@@ -278,10 +318,12 @@ int main(int argc, char **argv) {
                    .deadline_s = A.deadline, .max_depth = mode == 19 ? 1400 : 0, .prune_on_violation = 1, .on_new_state = getenv("VF_DBG") ? dbg_state : NULL };
     if (!strcmp(A.mode, "c19multi")) cfg = (e1_cfg){ .nev = 5 * NIF, .ev_name = mm_name, .apply = mm_apply, .enabled = mm_enabled, .root_setup = mm_root, .model = &MM, .model_size = sizeof MM, .deadline_s = A.deadline, .prune_on_violation = 1 };
     pumpcfg = (e1_cfg){ .nev = 2000, .ev_name = pump_name, .apply = pump_apply, .root_setup = root_setup };
-    if (A.replay) { A.verbose = 1; return e1_replay_file(pump ? &pumpcfg : &cfg, A.replay); }
+    int vq = !strcmp(A.mode, "c07v");
+    if (A.replay) { A.verbose = 1; return e1_replay_file(vq ? &vqcfg : pump ? &pumpcfg : &cfg, A.replay); }
     double t0 = vf_now_s();
     e1_stats st;
     if (pump) { run_pump(&cfg); R.wall_s = vf_now_s() - t0; vf_write_results(); return 0; }
+    if (vq) { run_vq(); R.wall_s = vf_now_s() - t0; vf_write_results(); return 0; }
     e1_run(&cfg, &st);
     if (mode == 19) {
         vf_extra("max_retained", "%llu bytes in %llu blocks over all %llu reachable states", (unsigned long long)max_live_bytes, (unsigned long long)max_live_blocks, (unsigned long long)st.states);
